@@ -396,6 +396,13 @@ class lodict(odict):
 
         super(lodict, self).update(d)
 
+    def reorder(self, other):
+        """
+        Make keys of other lowercase then reorder
+        """
+        if isinstance(other, odict) and other is not self:
+            other = lodict(other)
+        super(lodict, self).reorder(other)
 
 
 
